@@ -144,21 +144,52 @@ def rule_armers(ctx, M, units):
                 ctx.check(ok, "C16.ARMERS", where, "readiness resize only from reserve / insert_pinned / WakerVec::resize", site=s.where)
 
 
+def _waker_new_sites(M, bi, inline, depth=0):
+    """(BodyInfo, site) of every `<inline>::new(id, ..)` reachable in this body or in closures it builds"""
+    out = [(bi, s) for s in bi.sites if s.callee.owner == inline and s.callee.name == "new"]
+    if depth < 2:
+        for (_, cp, nb, st) in nested(M, bi):
+            if nb is not None:
+                out += _waker_new_sites(M, M.info(nb), inline, depth + 1)
+    return out
+
+
+def _id_is_position(M, bi, xi, site, start_pred):
+    """The id handed to the sub-waker is the position at which that waker is stored:
+       - closure parameter of `array::from_fn(|i| ..)` / `(lo..hi).map(|i| ..)` (collect / extend), or
+       - the loop variable of `for i in lo..hi { wakers.push(..) }`,
+    with `lo` satisfying start_pred (0 for a fresh table, the old length when growing)."""
+    idt = site.arg(0)
+    if xi is not bi:
+        if idt != ("param", 2):
+            return False
+        # the closure is the argument of from_fn (array) or of map over a Range lo..hi
+        cdef = xi.body.j["cdef"]
+        for s in bi.sites:
+            for a in s.args:
+                if a is not None and a[0] == "agg" and isinstance(a[1], tuple) and a[1][0] == "closure" and a[1][1] == cdef:
+                    if s.callee.name == "from_fn":
+                        return start_pred(("const", 0))
+                    if s.callee.name == "map":
+                        src = s.arg(0)
+                        if src is not None and src[0] == "agg" and src[1] == ("Range", "Range"):
+                            return start_pred(src[2][0])
+        return False
+    r = scan.loop_item_root(idt)
+    if r is not None and r[2] and r[2][0][0] == "agg" and r[2][0][1] == ("Range", "Range"):
+        lp = bi.body.innermost_loop(site.block)
+        pushes = [p for p in bi.sites if p.callee.name == "push" and lp is not None and p.block in lp[1]]
+        return start_pred(r[2][0][2][0]) and len(pushes) == 1
+    return False
+
+
 def rule_ownwaker(ctx, M):
-    # WakerArray::new: array::from_fn(|i| Arc::new(InlineWakerArray::new(i, readiness.clone())).into())
     for owner, inline in (("waker_array::WakerArray", "InlineWakerArray"), ("waker_vec::WakerVec", "InlineWakerVec")):
         b = prims.find_method(M, owner, "new")
         ctx.require(b is not None, owner + "::new")
         bi = M.info(b)
-        # the closure that builds one waker
-        clos = [nb for (_, cp, nb, _) in nested(M, bi) if nb is not None]
-        ok = False
-        for cb in clos:
-            cbi = M.info(cb)
-            for s in cbi.sites:
-                if s.callee.owner == inline and s.callee.name == "new":
-                    # first arg must be the closure's own index parameter (param 2)
-                    ok = s.arg(0) == ("param", 2)
+        sites = _waker_new_sites(M, bi, inline)
+        ok = len(sites) == 1 and _id_is_position(M, bi, sites[0][0], sites[0][1], lambda lo: lo == ("const", 0))
         ctx.check(ok, "C16.OWNWAKER", b.def_, "waker i is created with id i", site=b.span)
         g = prims.find_method(M, owner, "get")
         ctx.require(g is not None, owner + "::get")
@@ -168,14 +199,16 @@ def rule_ownwaker(ctx, M):
             if s.callee.name == "get" and s.arg(0) == ("field", ("param", 1), "wakers") and s.arg(1) == ("param", 2):
                 okg = True
         ctx.check(okg, "C16.OWNWAKER", g.def_, "get(i) returns wakers[i]", site=g.span)
-    # WakerVec::resize: index starts at wakers.len() and is incremented once per created waker
+    # WakerVec::resize: ids of new wakers continue at the old length
     r = prims.find_method(M, "waker_vec::WakerVec", "resize")
     ctx.require(r is not None, "WakerVec::resize")
     ri = M.info(r)
+    old_len = lambda t: t is not None and t[0] == "call" and t[1][1] == "len" and t[2] and t[2][0] == ("field", ("param", 1), "wakers")
+    # form A: resize_with(len, || { let w = new(index, ..); index += 1; w }) with index starting at wakers.len()
     ok_init = False
     for (_, cp, nb, st) in nested(M, ri):
         caps = [ri.T.of_operand(f) for f in st["rv"]["fields"]]
-        if caps and caps[0][0] == "call" and caps[0][1][1] == "len" and caps[0][2] and caps[0][2][0] == ("field", ("param", 1), "wakers"):
+        if caps and old_len(caps[0]):
             ok_init = True
     ok_inc = False
     for (_, cp, nb, _) in nested(M, ri):
@@ -185,12 +218,16 @@ def rule_ownwaker(ctx, M):
         news = [s for s in nbi.sites if s.callee.owner == "InlineWakerVec" and s.callee.name == "new"]
         incs = scan.increments(nbi)
         if news and len(incs) == 1 and incs[0][2] == 1:
-            # id passed = current value of the captured index; increment happens after the waker is built
             idt = news[0].arg(0)
-            ok_inc = idt == incs[0][1]
-            order_ok = nb.dominates(news[0].block, incs[0][0])
-            ok_inc = ok_inc and order_ok
-    ctx.check(ok_init and ok_inc, "C16.OWNWAKER", r.def_, "resize continues ids at wakers.len(), +1 per new waker", site=r.span)
+            ok_inc = idt == incs[0][1] and nb.dominates(news[0].block, incs[0][0])
+    form_a = ok_init and ok_inc
+    # form B: wakers.extend((old_len..len).map(|i| new(i, ..)))  /  for i in old_len..len { wakers.push(new(i, ..)) }
+    sites = _waker_new_sites(M, ri, "InlineWakerVec")
+    form_b = len(sites) == 1 and _id_is_position(M, ri, sites[0][0], sites[0][1], old_len)
+    if form_b and sites[0][0] is not ri:
+        ext = [s for s in ri.sites if s.callee.name in ("extend", "extend_from_slice") and s.arg(0) == ("field", ("param", 1), "wakers")]
+        form_b = len(ext) == 1
+    ctx.check(form_a or form_b, "C16.OWNWAKER", r.def_, "resize continues ids at wakers.len(), +1 per new waker", site=r.span)
     rz = [s for s in ri.sites if s.callee.owner == "ReadinessVec" and s.callee.name == "resize"]
     ctx.check(bool(rz) and rz[0].arg(1) == ("param", 2), "C16.OWNWAKER", r.def_, "readiness table is resized to the same length", site=r.span)
 
